@@ -121,7 +121,8 @@ ViewNoAct == <<mcfg, ms, hist, now, total, sup, mexact, dcfg, bal, rem, entitled
 (* ---- properties ---- *)
 \* C01: the supply changes only by what the schedule mints minus what the configuration burns
 SupplyLedger == \A d \in Denoms : supply[d] = Supply0 + minted[d] - burned[d]
-SupplyOnlyInBlocks == [][act'.name # "block" => supply' = supply]_vars
+\* (a trace specification starts a new execution with a reset step that sets act to the initial value: not judged)
+SupplyOnlyInBlocks == [][act'.name \notin {"block", "init"} => supply' = supply]_vars
 SupplyDeltaIsMintMinusBurn == [][act'.name = "block" =>
       \A d \in Denoms : supply'[d] - supply[d] = (IF d = mcfg.denom THEN act'.minted ELSE 0) - act'.burned[d]]_vars
 \* C03 at chain level: books match after every block
